@@ -587,9 +587,9 @@ Proof.
 Qed.
 
 (* ---------- LIMIT / OFFSET ---------- *)
-Definition limit_list (lim : option Z) (l : list row) : list row :=
+Definition limit_list {A} (lim : option Z) (l : list A) : list A :=
   match lim with Some n => if Z.ltb n 0 then l else firstn (Z.to_nat n) l | None => l end.
-Definition offset_list (off : option Z) (l : list row) : list row :=
+Definition offset_list {A} (off : option Z) (l : list A) : list A :=
   match off with Some k => if Z.leb k 0 then l else skipn' (Z.to_nat k) l | None => l end.
 
 Lemma limit_sx_sem : forall vo o vo' x, limit_sx vo o = (vo', x) ->
@@ -615,7 +615,8 @@ Lemma compile_limit_sem : forall vo q vo' lim off, compile_limit vo q = (vo', li
     match q_skip q with None => Some (Some 0) | Some o => option_map as_int (operand_value ps o) end = Some (Some k) ->
     k_firstzero q ps = false ->
     exists ln lk, lim_value binds lim = Some ln /\ lim_value binds off = Some lk /\
-                  (forall l, limit_list ln l = take_first n l) /\ (forall l, offset_list lk l = drop_skip k l).
+                  (forall A (l : list A), limit_list ln l = if Z.leb n 0 then l else firstn (Z.to_nat n) l) /\
+                  (forall A (l : list A), offset_list lk l = if Z.leb k 0 then l else skipn' (Z.to_nat k) l).
 Proof.
   intros vo q vo' lim off H. unfold compile_limit in H.
   destruct (limit_sx vo (q_first q)) as [vo1 lim1] eqn:E1.
@@ -623,22 +624,22 @@ Proof.
   assert (Hfirst : forall vf ps binds n, pfx vo1 vf -> bind vf ps = Some binds ->
             option_map as_int (operand_value ps (q_first q)) = Some (Some n) -> k_firstzero q ps = false ->
             exists ln, lim_value binds (match lim1, q_skip q with None, Some _ => Some (XInt (-1)) | l, _ => l end) = Some ln /\
-                       forall l, limit_list ln l = take_first n l).
+                       forall A (l : list A), limit_list ln l = if Z.leb n 0 then l else firstn (Z.to_nat n) l).
   { intros vf ps binds n Hpf Hb Hn Hk7. pose proof (Hs1 vf ps binds n Hpf Hb Hn) as Hl1.
     destruct (q_first q) as [fv|fn] eqn:Ef.
     - destruct (Z.eqb n 0) eqn:E.
       + apply Z.eqb_eq in E. subst n. destruct lim1 as [x|].
-        * exists None. split. destruct (q_skip q); exact Hl1. intros l. reflexivity.
-        * destruct (q_skip q). exists (Some (-1)). split. reflexivity. intros l. reflexivity.
-          exists None. split. reflexivity. intros l. reflexivity.
+        * exists None. split. destruct (q_skip q); exact Hl1. intros A l. reflexivity.
+        * destruct (q_skip q). exists (Some (-1)). split. reflexivity. intros A l. reflexivity.
+          exists None. split. reflexivity. intros A l. reflexivity.
       + apply Z.eqb_neq in E. destruct lim1 as [x|]. 2: { simpl in Hl1. discriminate. }
         exists (Some n). split. destruct (q_skip q); exact Hl1.
-        intros l. unfold take_first, limit_list. destruct (Z.ltb n 0) eqn:Ea, (Z.leb n 0) eqn:Eb; try reflexivity; lia.
+        intros A l. unfold limit_list. destruct (Z.ltb n 0) eqn:Ea, (Z.leb n 0) eqn:Eb; try reflexivity; lia.
     - unfold k_firstzero in Hk7. rewrite Ef in Hk7. simpl in Hn.
       destruct (lookup fn ps) as [v|] eqn:El; try discriminate. simpl in Hn. destruct v; try discriminate. injection Hn as <-.
       destruct lim1 as [x|]. 2: { simpl in Hl1. discriminate. }
       exists (Some z). split. destruct (q_skip q); exact Hl1.
-      intros l. unfold take_first, limit_list. destruct z; try discriminate; reflexivity. }
+      intros A l. unfold limit_list. destruct z; try discriminate; reflexivity. }
   destruct (q_skip q) as [so|] eqn:Es.
   - destruct (limit_sx vo1 so) as [vo2 off1] eqn:E2. injection H as <- <- <-.
     destruct (limit_sx_sem _ _ _ _ E2) as [Hp2 Hs2]. split. eapply pfx_trans; eauto.
@@ -646,13 +647,13 @@ Proof.
     destruct (Hfirst vf ps binds n (pfx_trans _ _ _ Hp2 Hpf) Hb Hn Hk7) as (ln & Hln & Hlim).
     pose proof (Hs2 vf ps binds k Hpf Hb Hk) as Hl2.
     exists ln. eexists. split. exact Hln. split. exact Hl2. split. exact Hlim.
-    intros l. unfold drop_skip, offset_list. destruct so.
+    intros A l. unfold offset_list. destruct so.
     + destruct (Z.eqb k 0) eqn:E. apply Z.eqb_eq in E. subst. reflexivity. reflexivity.
     + reflexivity.
   - injection H as <- <- <-. split. exact Hp1.
     intros vf ps binds n k Hpf Hb Hn Hk Hk7. injection Hk as <-.
     destruct (Hfirst vf ps binds n Hpf Hb Hn Hk7) as (ln & Hln & Hlim).
-    exists ln, None. split. exact Hln. split. reflexivity. split. exact Hlim. intros l. reflexivity.
+    exists ln, None. split. exact Hln. split. reflexivity. split. exact Hlim. intros A l. reflexivity.
 Qed.
 
 (* ---------- every variable slot of the statement is a variable of the query: binding succeeds ---------- *)
